@@ -270,3 +270,14 @@ func families(quick bool) []family {
 func codecPathsCase() Case {
 	return Case{Family: "codec/paths", Top: Top{Version: 2, Gen: true}, Elems: elemLists()[7]}
 }
+
+// minimalProbes: the smallest cases of the space (they are also reached by the
+// enumeration): {"elements":[]}, a container with nothing but bounds, a change
+// with one empty block.
+func minimalProbes() []Case {
+	return []Case{
+		{Family: "doc/top"},
+		{Family: "value/top", Top: Top{Version: 2, Bounds: true}},
+		{Family: "value/change", Blocks: [3]int{1, 0, 0}},
+	}
+}
